@@ -123,6 +123,9 @@ func runC10(c *Ctx) {
 			ic = ics.Funcs
 		}
 		e := refURL(s, dom, strict, pattern, params, ic)
+		if c.WantSample("url") && strict && len(params) > 0 {
+			c.Sample("url", map[string]any{"call": label, "strict": strict, "pattern": pattern, "params": fmtParams(params), "result": got, "error": fmt.Sprint(err), "model": e.why, "live": s.LivePatterns()})
+		}
 		bad := ""
 		switch {
 		case e.err && err == nil:
